@@ -66,6 +66,15 @@ CHECKS = {
         note=LEVEL_NOTE_COMMON + "Axioms: none. Component graphs are C08's UltraGraph model; HashMaps as association lists; contextoids represented by their id.",
         technique="Coq proof (frame lemmas + refinement to abstract context, induction over histories) + differential correspondence + proved spec checker as oracle",
         design="§7 C09"),
+    "C18": dict(
+        text="Theorems (Coq, every collection content, every verification history): filters return exactly the members whose predicate holds and as many as the count reports; "
+             "complementary filters partition the collection; counts are counts and percentages are count/size on the documented scale (as binary64 expressions); the all-X loops are "
+             "conjunctions; no member is both inferable and inverse-inferable (so non-inferable is always empty); an assumption is tested from its first verification on, valid only "
+             "after a verification returned true, and verify returns the function's verdict. The member predicates (total_cmp, truncating 4-decimal comparison, >=, ==) are modelled "
+             "on binary64 with SpecFloat and correspondence-tested on boundary values; the oracle recomputes every aggregate from the member predicates the implementation reports.",
+        note=LEVEL_NOTE_COMMON + "Axioms: none. binary64 via Coq.Floats.SpecFloat (pure Z arithmetic); NaN payloads not represented. '= 100 when all satisfy' is a bounded evaluation (<= 200 members), not a theorem.",
+        technique="Coq proof (list-level counting laws, induction over verification histories) + differential correspondence on boundary floats + law checker as oracle",
+        design="§7 C18"),
 }
 
 ALL = [f"C{n:02d}" for n in range(1, 20)]
